@@ -99,4 +99,34 @@ mod proofs {
         assert!(ab == bb && ac == bc && ad == bd, "state after a step depends on the data");
         kani::cover!(len == 5, "large header length reached");
     }
+
+    // quick-tier variant: the full 5-byte (large) header length only
+    #[kani::proof]
+    #[kani::unwind(8)]
+    fn wrath_keystream_step_len5() {
+        use wow_srp::wrath_header::ServerEncrypterHalf;
+        assert!(std::mem::size_of::<ServerEncrypterHalf>() == 263);
+        let raw: [u8; 263] = kani::any();
+        let mut e1: ServerEncrypterHalf = unsafe { std::mem::transmute(raw) };
+        let mut e2: ServerEncrypterHalf = unsafe { std::mem::transmute(raw) };
+        let data: [u8; 5] = kani::any();
+        let len: usize = 5;
+        let mut buf = data;
+        e1.encrypt(&mut buf[..len]);
+        let mut k = len;
+        while k < 5 { assert!(buf[k] == data[k]); k += 1; }
+        e2.encrypt(&mut buf[..len]);
+        let mut k = 0;
+        while k < 5 { assert!(buf[k] == data[k], "keystream applied twice is not the identity"); k += 1; }
+        // loop-free comparison of the two 263-byte post-states
+        let a: Packed = unsafe { std::mem::transmute(e1) };
+        let b: Packed = unsafe { std::mem::transmute(e2) };
+        let (aa, ba) = (a.a, b.a);
+        assert!(aa[0] == ba[0] && aa[1] == ba[1] && aa[2] == ba[2] && aa[3] == ba[3] && aa[4] == ba[4] && aa[5] == ba[5] && aa[6] == ba[6] && aa[7] == ba[7]
+            && aa[8] == ba[8] && aa[9] == ba[9] && aa[10] == ba[10] && aa[11] == ba[11] && aa[12] == ba[12] && aa[13] == ba[13] && aa[14] == ba[14] && aa[15] == ba[15],
+            "state after a step depends on the data");
+        let (ab, bb, ac, bc, ad, bd) = (a.b, b.b, a.c, b.c, a.d, b.d);
+        assert!(ab == bb && ac == bc && ad == bd, "state after a step depends on the data");
+        kani::cover!(len == 5, "large header length reached");
+    }
 }
